@@ -26,6 +26,7 @@ def run(ctx, rep):
         crate = ctx.crate(cfg)
         check_src(crate, rep, cfg)
         check_parser_source(crate, rep, cfg)
+        check_span_expand(crate, rep, cfg)
         check_chunkname(crate, rep, cfg)
         check_setsrc(crate, rep, cfg)
         check_note(crate, rep, cfg)
@@ -56,10 +57,11 @@ def check_src(crate, rep, cfg):
                     def is_state_chunk(l):
                         if ".chunk" in l.projs or (l.kind == "param" and "Chunk" in b.local_ty(l.detail)):
                             return True
-                        if leaf_call_is(l, "std::option::Option::<T>::replace"):
+                        if leaf_call_is(l, "std::option::Option::<T>::replace") or leaf_call_is(l, "std::mem::replace") or leaf_call_is(l, "std::mem::take"):
                             # the previous value of state.chunk, saved and restored around a nested interpret
                             recv = tr.operand(b.term(l.detail[2])["args"][0])
-                            return bool(recv) and all(".chunk" in x.projs or leaf_call_is(x, "std::option::Option::<T>::replace") for x in recv)
+                            return bool(recv) and all(".chunk" in x.projs or leaf_call_is(x, "std::option::Option::<T>::replace") or leaf_call_is(x, "std::mem::replace")
+                                                      or leaf_call_is(x, "std::mem::take") for x in recv)
                         return False
                     chunk_ok = bool(cl) and all(is_state_chunk(l) for l in cl)
             key = "C12.SRC:%s:%s#%d" % (b.path, "note" if is_note else "report", k)
@@ -164,6 +166,59 @@ def check_parser_source(crate, rep, cfg):
         ok = bool(pl) and bool(stored) and pl == stored and all(k == "param" for k, d in pl)
     rep.add("C12.SRC", "C12.SRC:Template::new:parses-what-it-stores", ok, tn.where(pcs[0][0]) if pcs else tn.where(0), "Template::new parses the `source` parameter it stores in "
             "Template.source" + ("" if ok else " — VIOLATED"))
+
+
+def check_span_expand(crate, rep, cfg):
+    """C12.POS — a span's (end_line, end_col) and range.end describe ONE position: Span::expand takes all three from the same span (the one
+    expanded to), as plain copies — a per-field max/min mixes the line of one with the column of the other."""
+    b = crate.one("utils::Span::expand")
+    rep.analysed(b)
+    tr = Tracer(b, transparent=set())
+    got = {}
+    for bb, idx, st in b.stmts():
+        if idx == "t" or st.get("k") != "assign":
+            continue
+        pp = pl_projs(st["pl"])
+        f = [p for p in pp if p.startswith(".")]
+        if f and f[-1] in (".end_line", ".end_col", ".range"):
+            got.setdefault(f[-1], []).append((bb, idx, st))
+        elif f[-2:] == [".range", ".end"]:
+            got.setdefault(".range.end", []).append((bb, idx, st))
+        elif f[-2:] == [".range", ".start"]:
+            got.setdefault(".range.start", []).append((bb, idx, st))
+    if ".range.end" in got and ".range" not in got and ".range.start" not in got:
+        # `self.range.end = other.range.end`: the start is simply left alone
+        ends_ok = True
+        for bb, idx, st in got.pop(".range.end"):
+            el = [l for l in tr._rv(st["rv"], (), set(), 0, bb, idx) if l.kind != "cycle"]
+            if not (el and all(l.kind == "param" and l.detail == 2 and [p for p in l.projs if p.startswith(".")] == [".range", ".end"] for l in el)):
+                ends_ok = False
+        got[".range"] = [] if ends_ok else [(0, 0, {"rv": {"k": "other"}})]
+    ok = set(got) == {".end_line", ".end_col", ".range"}
+    why = "fields written: %s" % sorted(got)
+    if ok:
+        for fld in (".end_line", ".end_col"):
+            for bb, idx, st in got[fld]:
+                ls = [l for l in tr._rv(st["rv"], (), set(), 0, bb, idx) if l.kind != "cycle"]
+                if not (ls and all(l.kind == "param" and l.detail == 2 and [p for p in l.projs if p.startswith(".")] == [fld] for l in ls)):
+                    ok, why = False, "%s is not a plain copy of other%s (%s)" % (fld, fld, sorted(leaf_str(l) for l in ls)[:2])
+        for bb, idx, st in got[".range"]:
+            rv = st["rv"]
+            if rv["k"] != "agg":
+                al = [l for l in tr._rv(rv, (), set(), 0, bb, idx) if l.kind == "agg" and str(l.detail[1]).startswith("std::ops::Range") and not l.projs]
+                if len(al) == 1:
+                    rv = b.blocks[al[0].detail[3]]["s"][al[0].detail[4]]["rv"]
+            if rv["k"] == "agg" and str(rv.get("adt", "")).startswith("std::ops::Range"):
+                el = [l for l in tr.operand(rv["ops"][1]) if l.kind != "cycle"]
+                sl = [l for l in tr.operand(rv["ops"][0]) if l.kind != "cycle"]
+                if not (el and all(l.kind == "param" and l.detail == 2 and [p for p in l.projs if p.startswith(".")] == [".range", ".end"] for l in el)):
+                    ok, why = False, "range.end is not other.range.end"
+                if not (sl and all(l.kind == "param" and l.detail == 1 and [p for p in l.projs if p.startswith(".")] == [".range", ".start"] for l in sl)):
+                    ok, why = False, "range.start is not kept"
+            else:
+                ok, why = False, "range is not rebuilt as self.range.start..other.range.end"
+    rep.add("C12.POS", "C12.POS:Span::expand:end-triple-from-one-span", ok, b.where(0), "Span::expand copies end_line, end_col and range.end from the span it expands to, and keeps its "
+            "own start" + ("" if ok else " — VIOLATED: " + why))
 
 
 def rrec_field(tr, op):
